@@ -748,6 +748,7 @@ pub fn exec_ops(w: &mut SessWorker, light: bool, fork_run: bool, src: &mut dyn O
                     }
                     for f in &step.features {
                         res.bump(&format!("feature.{f}"));
+                        res.cell(&format!("{f}|{}|after-failure:{}", if forked { session.as_str() } else { "repl" }, n_failed_lines > 0));
                     }
                     let e = Elem {
                         text: step.text.clone(),
